@@ -234,6 +234,10 @@ func (e *executor) processInput(workflow *Workflow) (schema.Scope, error) {
 	if !ok {
 		return nil, fmt.Errorf("bug: unserialized input is not a scope")
 	}
+	if _, found := typedInput.Objects()[typedInput.Root()]; !found {
+		return nil, &ErrInvalidWorkflow{fmt.Errorf(
+			"invalid workflow input section (root object '%s' is not among the objects)", typedInput.Root())}
+	}
 	typedInput.ApplySelf()
 	return typedInput, nil
 }
